@@ -337,8 +337,11 @@ of_status_t	of_ldpc_staircase_set_fec_parameters (of_ldpc_staircase_cb_t*	ofcb,
 													!= OF_STATUS_OK)
 			{
 				OF_PRINT_ERROR(("%s: ERROR: of_ldpc_staircase_decode_with_new_symbol() failed\n", __FUNCTION__))
+				of_free (null_symbol);
 				goto error;
 			}
+			/* the decoder keeps its own copy of repair symbols, so free our buffer. */
+			of_free (null_symbol);
 		}
 	}
 #endif //OF_USE_DECODER
